@@ -341,6 +341,55 @@ def run(ctx: Ctx) -> None:
                             "signatures in two processes (and {1: v} collides with {'1': v})"], stmt_key(c), what="the text form of an arbitrary value is hashed")
     rep.floor("C03.R6", n6, 2)
 
+    # ---- R11: debugging options guard no state change ----------------------------------------------------------------
+    rep.rule("C03.R11", "a block of the API module that runs only under a debugging option (extra_debug, graph export) assigns no module global, calls no mutating "
+                        "Store method and does not return: signatures and results are the same with the option on or off")
+    n11 = 0
+    api_mod = prog.modules.get("dds._api")
+    if api_mod is None:
+        raise AnchorError("dds._api not found")
+    for f in [g for g in prog.funcs.values() if g.module is api_mod]:
+        globs = {nm for x in f.own_nodes() if isinstance(x, ast.Global) for nm in x.names}
+        for st in f.own_nodes():
+            if not isinstance(st, ast.If):
+                continue
+            t = unparse(st.test, 200)
+            if not ("extra_debug" in t or "export_graph" in t):
+                continue
+            for (branch, label) in ((st.body, "on"), (st.orelse, "off")):
+                if not branch:
+                    continue
+                n11 += 1
+                wit = []
+                for x in ast.walk(ast.Module(body=branch, type_ignores=[])):
+                    if isinstance(x, (ast.Assign, ast.AugAssign, ast.AnnAssign)):
+                        tgts = x.targets if isinstance(x, ast.Assign) else [x.target]
+                        for tg in tgts:
+                            if isinstance(tg, ast.Name) and tg.id in globs:
+                                wit.append(f"{f.loc(x)}: `{unparse(x, 70)}` assigns the module global `{tg.id}` only when the option is {label}")
+                    elif isinstance(x, ast.Call) and isinstance(x.func, ast.Attribute) and x.func.attr in ("store_blob", "sync_paths"):
+                        wit.append(f"{f.loc(x)}: `{unparse(x, 70)}` changes the store only when the option is {label}")
+                    elif isinstance(x, ast.Return):
+                        wit.append(f"{f.loc(x)}: the function returns here only when the option is {label}")
+                desc = f"the block under `{t[:40]}` ({label}) changes no state of the evaluation"
+                if wit:
+                    rep.bad("C03.R11", f.qname, desc, f.loc(st), wit + ["with the option in its other position the evaluation context / the store is left as it was: nested keeps look their "
+                            "key up in a map that was never published (KeyError) or the evaluation behaves differently"], stmt_key(st) + label,
+                            what="a debugging option decides whether evaluation state is updated")
+                else:
+                    rep.ok("C03.R11", f.qname, desc, f.loc(st))
+    rep.floor("C03.R11", n11, 2)
+
+    # ---- R10: sibling call sites ------------------------------------------------------------------------------------
+    from .common import sibling_call_sites
+    rep.rule("C03.R10", "the call inspector is handed the body hash, the input signature and the signature of the previous interactions in the same parameters by every "
+                        "visitor method that calls it (calls by name and plain calls are keyed alike)")
+    n10 = sibling_call_sites(ctx, "C03.R10", ("dds.introspect.InspectFunction.inspect_call", "dds._introspect_indirect.InspectFunctionIndirect.inspect_call",
+                                              "dds.introspect.InspectFunction.inspect_fun", "dds._introspect_indirect.InspectFunctionIndirect.inspect_fun"),
+                             "the context key of a function referenced by name (`map(f, xs)`, `sorted(v, key=f)`) binds the two hashes to the wrong labels: every signature at or above such "
+                             "a reference differs from the pinned one")
+    rep.floor("C03.R10", n10, 2)
+
     # ---- R9: pinned encodings ----------------------------------------------------------------------------------------
     from .c05 import pinned_preimages
     rep.rule("C03.R9", "signatures of a pinned table of values stay byte-identical: abstract evaluation of dds_hash gives, for each value, the bytes pinned in "
